@@ -58,6 +58,9 @@ pub enum FaultKind {
     /// one payload byte of an OBJECT packet (the `back`-th from the end) is altered: header, extensions and payload id
     /// stay what the sender wrote
     MutPayload { pkt: usize, back: usize, xor: u8 },
+    /// the first FDT packet at or after the index is REPLACED by a copy whose payload starts with garbage: the instance
+    /// cannot be decoded (rejected), its instance id must not stay poisoned for the retransmission
+    BreakFdt { pkt: usize },
     Truncate { pkt: usize, len: usize },
     Extend { pkt: usize, extra: Vec<u8> },
     Splice { a: usize, b: usize, cut_a: usize, cut_b: usize },
@@ -414,6 +417,11 @@ pub fn gen(idx: u64, rng: &mut Rng, tier: Tier) -> Scn {
         let faults = (0..rng.range(1, 3)).map(|_| Fault { at: rng.below(40) as usize, kind: FaultKind::MutPayload { pkt: rng.below(40) as usize, back: rng.below(2000) as usize, xor: rng.below(256) as u8 } }).collect();
         return Scn { sender, recv, faults, fresh_all: false };
     }
+    if rng.chance(0.06) {
+        // nothing but one garbled FDT packet of the session's own instance
+        let faults = vec![Fault { at: 0, kind: FaultKind::BreakFdt { pkt: rng.below(6) as usize } }];
+        return Scn { sender, recv, faults, fresh_all: false };
+    }
     let nf = rng.range(1, 50) as usize;
     let mut faults = Vec::new();
     let base_xml = "<?xml version=\"1.0\" encoding=\"UTF-8\"?><FDT-Instance xmlns=\"urn:IETF:metadata:2005:FLUTE:FDT\" Expires=\"4000000000\" FEC-OTI-FEC-Encoding-ID=\"0\" FEC-OTI-Maximum-Source-Block-Length=\"64\" FEC-OTI-Encoding-Symbol-Length=\"16\"><File TOI=\"1\" Content-Location=\"file:///a\" Content-Length=\"101\" Transfer-Length=\"101\" Content-Type=\"t\"/><File TOI=\"2\" Content-Location=\"file:///b\" Content-Length=\"0\" Transfer-Length=\"0\"/></FDT-Instance>";
@@ -708,7 +716,7 @@ pub fn run(scn: &Scn, ctx: &Ctx, scratch: &Path) {
                     }
                 }
                 // (delivered IN PLACE of the packet, see below)
-                FaultKind::MutPayload { .. } => {}
+                FaultKind::MutPayload { .. } | FaultKind::BreakFdt { .. } => {}
                 FaultKind::Truncate { pkt, len } => {
                     let e = &sess.trace.pkts[*pkt % n];
                     let l = (*len).min(e.bytes.len().saturating_sub(1));
@@ -887,7 +895,21 @@ pub fn run(scn: &Scn, ctx: &Ctx, scratch: &Path) {
                 }
                 _ => None,
             });
-            if let Some((back, xor)) = hit {
+            let broken_fdt = scn.faults.iter().any(|f| match &f.kind {
+                FaultKind::BreakFdt { pkt } => (0..n).map(|k| (*pkt + k) % n).find(|i| sess.trace.pkts[*i].dec.toi == 0 && !sess.trace.pkts[*i].dec.payload.is_empty()) == Some(at),
+                _ => false,
+            });
+            if broken_fdt {
+                let mut b = e.bytes.clone();
+                let start = b.len() - e.dec.payload.len();
+                for x in b[start..].iter_mut().take(12) {
+                    *x = b'<';
+                }
+                p.what = format!("FDT packet {} with a garbled payload", at);
+                p.push(&b, true);
+                ctx.borrow_mut().count_fault("garble-fdt-packet");
+                fired += 1;
+            } else if let Some((back, xor)) = hit {
                 let mut b = e.bytes.clone();
                 let pos = b.len() - 1 - (back % e.dec.payload.len());
                 b[pos] ^= xor | 1;
